@@ -40,7 +40,7 @@ import (
 func init() {
 	Register(&Scenario{
 		Name: "reuse", Props: []string{"C12"}, Bubble: true, Pools: true,
-		Plan: simple(8000, 150000),
+		Plan: simple(8000, 450000),
 		Run:  func(r *core.Run) { runHistories(r, "C12") },
 		Real: []string{"codec.Decode (zero-copy views) + dispatchers / IDecode", "IEncode, String of all PDU types", "EncodeCMPPContentAndSplit / EncodeSMPPContentAndSplit", "ParseLongSmsContent", "cmpp.Utf8ToUcs2Pooled", "receipt extractors", "packet.Writer / PDUStringer pools (bytebufferpool, sync.Pool)"},
 		Stub: []string{"history generator", "SimConn (realloc-poison / compact / ring) and link", "scribble_input / scribble_output / poison_release fault injectors", "seeded cooperative scheduler", "snapshot store and sequential reference pass"},
@@ -48,7 +48,7 @@ func init() {
 	})
 	Register(&Scenario{
 		Name: "concurrent", Props: []string{"C13"}, Bubble: true, Pools: true,
-		Plan: simple(3000, 80000),
+		Plan: simple(3000, 160000),
 		Run:  func(r *core.Run) { runHistories(r, "C13") },
 		Real: []string{"as reuse, plus BatchDataCodingEncoder.Build whose errgroup workers become scheduler tasks"},
 		Stub: []string{"seeded cooperative scheduler choosing the running task at every yield site (leg A)", "free-running -race leg at GOMAXPROCS 1/4/16 with seeded Gosched at the yield sites (leg B, observes real executions)"},
